@@ -55,10 +55,21 @@ def _targeted(rng):
     return out
 
 
+def _definite_outer(buf, nblocks):
+    """the documented leniency 'definite-length outer array', with honest and dishonest element counts"""
+    body = buf[1:-1]
+    return [genb.head(4, n) + body for n in (nblocks, nblocks + 1, max(0, nblocks - 1), 23, 24, 2 ** 16, 2 ** 20, 2 ** 32, 2 ** 63, U64 - 1)]
+
+
 def corpus():
     import vlib
     rng = vlib.Rng(606)
     out = []
+    for nb in (0, 1, 3):
+        b = genb.rnd_bundle(rng, nblocks=nb, crc_kind=rng.randrange(3))
+        for buf in _definite_outer(genb.ref_bundle(b)[0], nb + 2):
+            out.append("DEC " + xhex(buf))
+            out.append(_rx(rng, buf, OFFSET + 5000))
     for buf in _targeted(rng):
         out.append("DEC " + xhex(buf))
         for clock in (OFFSET + 5000, U64 - 1):
@@ -94,6 +105,10 @@ def cases(rng, tier):
     nm = 12000 if tier == "quick" else 1500000
     seeds = [genb.ref_bundle(genb.rnd_bundle(rng, nblocks=rng.randrange(0, 5)))[0] for _ in range(400)]
     seeds += _targeted(rng)
+    for _ in range(nm // 40):
+        nb = rng.randrange(0, 4)
+        b = genb.rnd_bundle(rng, nblocks=nb)
+        out.append("DEC " + xhex(rng.choice(_definite_outer(genb.ref_bundle(b)[0], nb + 2))))
     for _ in range(nm):
         buf = rng.choice(seeds)
         for _ in range(rng.choice([1, 1, 1, 2, 3])):
